@@ -592,6 +592,57 @@ get_delete() {
 }
 
 /**
+ * Converts a value to the given arithmetic type, the way a cast or the
+ * initialization of a variable of that type does.
+ */
+static CPPExpression::Result
+convert_to_simple_type(const CPPExpression::Result &result, const CPPSimpleType *stype) {
+  if (result._type == CPPExpression::RT_error) {
+    return result;
+  }
+  switch (stype->_type) {
+  case CPPSimpleType::T_bool:
+    return CPPExpression::Result((int)result.as_boolean());
+
+  case CPPSimpleType::T_char:
+    // A narrow character type; plain char is signed here.
+    if (stype->_flags & CPPSimpleType::F_unsigned) {
+      return CPPExpression::Result((int)(unsigned char)result.as_integer());
+    } else {
+      return CPPExpression::Result((int)(signed char)result.as_integer());
+    }
+
+  case CPPSimpleType::T_int:
+    {
+      long long value = result.as_integer();
+      if (stype->_flags & CPPSimpleType::F_short) {
+        // The value is converted to the 16-bit target type.
+        if (stype->_flags & CPPSimpleType::F_unsigned) {
+          value = (unsigned short)value;
+        } else {
+          value = (short)value;
+        }
+      } else if ((stype->_flags & (CPPSimpleType::F_long | CPPSimpleType::F_longlong)) == 0) {
+        // The value is converted to the 32-bit target type.
+        if (stype->_flags & CPPSimpleType::F_unsigned) {
+          value = (unsigned int)value;
+        } else {
+          value = (int)value;
+        }
+      }
+      return CPPExpression::Result(value);
+    }
+
+  case CPPSimpleType::T_float:
+  case CPPSimpleType::T_double:
+    return CPPExpression::Result(result.as_real());
+
+  default:
+    return result;
+  }
+}
+
+/**
  *
  */
 CPPExpression::Result CPPExpression::
@@ -621,14 +672,17 @@ evaluate() const {
   case T_variable:
     if (_u._variable->_type != nullptr &&
         _u._variable->_initializer != nullptr) {
-      // A constexpr variable, which is treated as const.
-      if (_u._variable->_storage_class & (CPPInstance::SC_constexpr | CPPInstance::SC_constinit)) {
-        return _u._variable->_initializer->evaluate();
-      }
-      // A const variable.  Fetch its assigned value.
-      CPPConstType *const_type = _u._variable->_type->as_const_type();
-      if (const_type != nullptr) {
-        return _u._variable->_initializer->evaluate();
+      // A constexpr variable, which is treated as const, or a const
+      // variable.  Fetch its assigned value: the initializer converted to
+      // the declared type.
+      if ((_u._variable->_storage_class & (CPPInstance::SC_constexpr | CPPInstance::SC_constinit)) ||
+          _u._variable->_type->as_const_type() != nullptr) {
+        r1 = _u._variable->_initializer->evaluate();
+        CPPSimpleType *stype = _u._variable->_type->remove_cv()->as_simple_type();
+        if (stype != nullptr) {
+          return convert_to_simple_type(r1, stype);
+        }
+        return r1;
       }
     }
     return Result();
@@ -649,31 +703,11 @@ evaluate() const {
     if (r1._type != RT_error) {
       CPPSimpleType *stype = _u._typecast._to->as_simple_type();
       if (stype != nullptr) {
-        if (stype->_type == CPPSimpleType::T_bool) {
-          return Result(r1.as_boolean());
-
-        } else if (stype->_type == CPPSimpleType::T_int) {
-          long long value = r1.as_integer();
-          if (stype->_flags & CPPSimpleType::F_short) {
-            // The value is converted to the 16-bit target type.
-            if (stype->_flags & CPPSimpleType::F_unsigned) {
-              value = (unsigned short)value;
-            } else {
-              value = (short)value;
-            }
-          } else if ((stype->_flags & (CPPSimpleType::F_long | CPPSimpleType::F_longlong)) == 0) {
-            // The value is converted to the 32-bit target type.
-            if (stype->_flags & CPPSimpleType::F_unsigned) {
-              value = (unsigned int)value;
-            } else {
-              value = (int)value;
-            }
-          }
-          return Result(value);
-
-        } else if (stype->_type == CPPSimpleType::T_float ||
-                   stype->_type == CPPSimpleType::T_double) {
-          return Result(r1.as_real());
+        if (stype->_type == CPPSimpleType::T_bool ||
+            stype->_type == CPPSimpleType::T_int ||
+            stype->_type == CPPSimpleType::T_float ||
+            stype->_type == CPPSimpleType::T_double) {
+          return convert_to_simple_type(r1, stype);
         }
       }
       if (_u._typecast._to->as_pointer_type()) {
